@@ -583,9 +583,16 @@ impl ExtDatabase for Sqlite {
             <Sqlite as Database>::TransactionManager::begin(conn).await?;
             if !nested {
                 // a no-op write transaction
-                sqlx::query("DELETE FROM config WHERE 0")
-                    .execute(conn)
-                    .await?;
+                if let Err(err) = sqlx::query("DELETE FROM config WHERE 0")
+                    .execute(&mut *conn)
+                    .await
+                {
+                    // do not leave the transaction open on the pooled connection
+                    <Sqlite as Database>::TransactionManager::rollback(conn)
+                        .await
+                        .ok();
+                    return Err(err);
+                }
             }
             Ok(())
         })
